@@ -6,6 +6,7 @@ from .. import mc, tlc, eqbind
 from ..tlaval import to_json
 
 ALL_BEHS = ['equal', 'different', 'bare', 'playerRaises', 'extractorRaises', 'comparatorRaises', 'dataRaises', 'exits', 'hangs', 'late']
+EXTRA_BEHS = ['unreadable', 'idleExit', 'reportRaises']
 PROC_BEHS = {'exits', 'hangs', 'late', 'unreadable', 'idleExit'}
 INVS = ['Attribution', 'OneEach', 'RecycleBound', 'OneWorker']
 
@@ -124,6 +125,8 @@ def run(rep, tier, seed, judge=judge_c08, prop_filter=None, extra=None):
             # deviation), the one after it is unaffected
             sc += scenarios(rep, s, 'n4idle', consts(4, ['equal', 'different', 'idleExit', 'late'], 2, [4]), 200, rnd)
             sc += scenarios(rep, s, 'n4idle3', consts(4, ['equal', 'idleExit', 'exits'], 3, [4, 2]), 100, rnd)
+            # a failure the worker cannot even describe: it answers (False, text), lives on, the task counts
+            sc += scenarios(rep, s, 'n4report', consts(4, ['equal', 'reportRaises', 'exits', 'late'], 2, [4]), 150, rnd)
         else:
             sc += scenarios(rep, s, 'n5', consts(5, ['equal', 'different', 'playerRaises', 'exits', 'hangs', 'late'], 2, [5, 3, 1]), 30000, rnd, liveness=False)
             sc += scenarios(rep, s, 'n4all', consts(4, ALL_BEHS, 2, [4, 2]), 20000, rnd)
@@ -132,6 +135,8 @@ def run(rep, tier, seed, judge=judge_c08, prop_filter=None, extra=None):
             sc += scenarios(rep, s, 'n5idle', consts(5, ['equal', 'different', 'idleExit', 'late', 'hangs'], 2, [5, 3]), 6000, rnd, liveness=False)
             sc += scenarios(rep, s, 'n4idle3', consts(4, ['equal', 'idleExit', 'exits', 'playerRaises'], 3, [4, 2]), 3000, rnd)
             sc += scenarios(rep, s, 'n4idle1', consts(4, ['equal', 'idleExit', 'late'], 1, [4]), 1000, rnd)
+            sc += scenarios(rep, s, 'n5report', consts(5, ['equal', 'different', 'reportRaises', 'exits', 'late'], 2, [5, 3]), 4000, rnd, liveness=False)
+            sc += scenarios(rep, s, 'n4report3', consts(4, ['equal', 'reportRaises', 'hangs', 'unreadable'], 3, [4]), 1000, rnd)
         for name, c, cap in (extra(tier) if extra else []):
             sc += scenarios(rep, s, name, c, cap, rnd)
     tasks = []
@@ -179,7 +184,7 @@ def impl_level(rep, impl):
                 t['id'] = i + 1
             name = 'MC_%s_impl_%d_%d' % (rep.prop, n, rate)
             mc.write_mc(s, 'EqualizerImplTrace', name,
-                        consts(n, ALL_BEHS + ['unreadable', 'idleExit'], rate, list(range(1, n + 1))), invariants=['TraceInv'],
+                        consts(n, ALL_BEHS + EXTRA_BEHS, rate, list(range(1, n + 1))), invariants=['TraceInv'],
                         spec='TraceSpec', constraints=['Report'])
             try:
                 r, acc, rej = tracecheck.validate(s, name, name + '.cfg', traces)
